@@ -60,7 +60,8 @@ def gen_cases(tier, seed):
         c['id'] = (f"C03-{tier[0]}{seed}-{len(cases):03d}-{variant}-{kind}"
                    f"{kw.get('adc_order', '')}-"
                    f"{block.replace(',', '_')}-{order}"
-                   f"{'' if subtract_gs else '-nogs'}")
+                   f"{'' if subtract_gs else '-nogs'}"
+                   f"{'-singles' if kw.get('singles') else ''}")
         cases.append(c)
     for variant in ('pp', 'ip', 'ea', 'dip', 'dea'):
         s1, s2 = spaces_upto(variant, 2)
@@ -76,6 +77,14 @@ def gen_cases(tier, seed):
         add(variant, 'isr', f'{s1},{s1}', 1, subtract_gs=False, cost=10)
         add(variant, 'precursor', f'{s1},{s1}', 2, cost=30)
         add(variant, 'table', '', 0, cost=1)
+    # ground state with free first-order singles (first_order_singles=True)
+    for variant in ('pp', 'ip'):
+        s1, s2 = spaces_upto(variant, 2)
+        add(variant, 'isr', f'{s1},{s1}', 1, cost=15, singles=True)
+        add(variant, 'isr', f'{s1},{s1}', 2, cost=80, singles=True)
+        add(variant, 'isr', f'{s1},{s2}', 1, cost=60, singles=True)
+        add(variant, 'isr', f'{s1},{s1}', 1, subtract_gs=False, cost=15,
+            singles=True)
     # matrix vector products of ADC(2)
     for variant in ('pp', 'ip', 'ea'):
         s1, s2 = spaces_upto(variant, 2)
@@ -120,7 +129,8 @@ def build_reference(case, order, nclasses=2, p=None):
     mseed = case['mseed']
     for _ in range(5):
         try:
-            ref = gsref.GSRef('mp', False, n_o, n_v, mseed, max(order, 1),
+            ref = gsref.GSRef('mp', bool(case.get('singles')), n_o, n_v, mseed,
+                              max(order, 1),
                               p=p or tm.PRIMES[0])
             break
         except (ZeroDivisionError, tm.ModelUnusable):
@@ -183,11 +193,12 @@ def run_case(case, res):
     from .. import tm, isr as isrmod
     variant, kind, order = case['variant'], case['kind'], case['order']
     r = rng_for(case['hseed'], 'names')
-    gs = GroundState(Operators('mp'))
+    gs = GroundState(Operators('mp'), bool(case.get('singles')))
     lib_isr = IntermediateStates(gs, variant)
     sm = SecularMatrix(lib_isr)
     res.fingerprint = fp(variant, kind, case['block'], order,
-                         case['subtract_gs'], case['dims'])
+                         case['subtract_gs'], case['dims'],
+                         bool(case.get('singles')))
     if kind == 'table':
         return run_table(case, res, sm, variant)
     spI, spJ = case['block'].split(',')
